@@ -15,6 +15,7 @@ from ..gen import descriptions as G
 from ..indep import envmodel, mcbor, refenc
 from ..indep import registry as R
 from . import common, encryption as X
+from ..mon import faults
 
 ID = "C05"
 RULE = ("hierarchies of depth 1-3 in a private directory: firmware files of sizes {0,1,23,24,255,256,4095..4097,8192,65535,65536,65537,100000,131072,131073,200001, "
@@ -171,6 +172,11 @@ def build_node(rec, r, w, depth, maxdepth, uniq, counters, rd=None):
                 try:
                     if c.value != refenc.Encoder(read=w.read).envelope(child_desc):
                         counters.add("child-differs-from-reference")   # reported when the child is the case itself
+                        if faults.note:
+                            # ... except when this create ran into an injected fault and reported success: then this is
+                            # the only place where its output is judged (the parent is checked against the child FILE)
+                            rec.violation("file-reference-content", "a dependency created on its own differs from the "
+                                          "reference computed from the file bytes", {"kind": "child", "desc": child_desc})
                 except refenc.Unsupported:
                     counters.add("child-unknown-to-reference")
                 child_bytes = c.value
